@@ -229,7 +229,8 @@ def run(repo, rep):
                         lits = [(nm_, D.show(i_)[:60]) for nm_, how_, i_ in (S.element_view(t.items) if isinstance(t, D.Seq) else []) if how_ == 'literal']
                         others = [i_ for nm_, how_, i_ in (S.element_view(t.items) if isinstance(t, D.Seq) else []) if how_ == 'other']
                         n += 1
-                        rep.check(not bad and not lits and (bool(ch) or bool(others)), 'C11.b', lab + ':children-one-level-deeper', fn.where, 'every child printed one level deeper',
+                        cut_ = pr.assumed('max_seq_len <', True)     # a path that shows a prefix of the elements - possibly none
+                        rep.check(not bad and not lits and (bool(ch) or bool(others) or cut_), 'C11.b', lab + ':children-one-level-deeper', fn.where, 'every child printed one level deeper',
                                   ('%s writes the element %s as %s on a path taken when one level of depth is left (%s): the elements are at the cut there and '
                                    'must be shown as placeholders' % (fn.name, lits[0][0], lits[0][1], pr.fact_text()[:80])) if lits and not bad else
                                   '%s prints %s under contexts that are not exactly one nested_call() below its own (children found: %d): each container '
